@@ -34,8 +34,10 @@ CONSTANTS
   LeafStatuses,   \* statuses a leaf may be told
   MaxThreads,     \* 1 = sequential, 2 = two concurrent updates
   MaxEpisodes,    \* how often a second update may start while another one is in flight
-  NoOpinionInit   \* FALSE: code as is (every role starts STANDBY)
+  NoOpinionInit,  \* FALSE: code as is (every role starts STANDBY)
                   \* TRUE : repaired (an aggregator without critical descendant starts INVARIANT)
+  TrustCarried    \* TRUE : code as is (merge takes the carried MIXED / ERROR / UNDEFINED at face value)
+                  \* FALSE: repaired (merge always recomputes from the children's current values)
 
 VARIABLES shape, cS, cT, thr, last, episodes
 vars == <<shape, cS, cT, thr, last, episodes>>
@@ -190,8 +192,8 @@ AggState(c, n) == AggStateFrom(c, Children(n), 1, "INVARIANT")
 \* safestate.go: SafeState.merge for an aggregator / include role
 MergeState(c, n, s) ==
   IF c[n] = s THEN c[n]
-  ELSE IF s = "MIXED" /\ c[n] # "ERROR" THEN "MIXED"
-  ELSE IF s = "ERROR" THEN "ERROR"
+  ELSE IF TrustCarried /\ s = "MIXED" /\ c[n] # "ERROR" THEN "MIXED"
+  ELSE IF TrustCarried /\ s = "ERROR" THEN "ERROR"
   ELSE AggState(c, n)
 
 \* safestatus.go: aggregateStatus(roles): no roles => UNDEFINED; first child, then X with the
@@ -207,7 +209,7 @@ AggStatus(c, n) ==
 \* safestatus.go: SafeStatus.merge for an aggregator / include role
 MergeStatus(c, n, s) ==
   IF c[n] = s THEN c[n]
-  ELSE IF s = "UNDEFINED" THEN "UNDEFINED"
+  ELSE IF TrustCarried /\ s = "UNDEFINED" THEN "UNDEFINED"
   ELSE AggStatus(c, n)
 
 Idle == [kind |-> "-", leaf |-> 0, at |-> 0, carried |-> "-", pc |-> "idle"]
@@ -331,4 +333,7 @@ OrderIndependent ==
 AdapterFresh ==
   Quiescent => /\ last.state # "none" => last.state = cS[Root]
                /\ last.status # "none" => last.status = cT[Root]
+
+\* view that forgets what the adapter saw (for runs that do not check AdapterFresh)
+ViewNoLast == <<shape, cS, cT, thr, episodes>>
 =============================================================================
